@@ -359,6 +359,7 @@ ROUND11 = {
 ROUND12 = {
  "C05": "Attribute requests with a proxy as the attribute name; an exception the traceback formatter stumbles over.",
  "C08": "Wrong first messages written with an unknown serializer id.",
+ "C10": "In a third of the scripts the source object does not keep the streams it handed out alive.",
  "C13": "A resource with parts that only the whole holds on to.",
  "C14": "The removal of 520 names without any failure as well.",
  "C15": "A listing over 300 names overtaken by two removals under delay-bounded schedules.",
